@@ -307,7 +307,7 @@ impl Scenario for Chaos {
     fn assumptions(&self) -> Vec<String> {
         vec![
             "panic=unwind build of the same sources: a panic is reported where the shipped panic=abort build would abort".into(),
-            "allocation failure and AddressSanitizer runs are out of scope of this check (DESIGN.md §5)".into(),
+            "allocation failure is out of scope; memory errors are only visible in the AddressSanitizer phase of the thorough tier (DESIGN.md §3 C04)".into(),
         ]
     }
     fn make(&self, seed: u64, _case: u64, _tier: Tier) -> Trial {
